@@ -1,5 +1,1220 @@
-From Coq Require Import String List Bool Arith.
+(* Lemmas about the model of derivative-atom naming and order bookkeeping (C17). *)
+From Coq Require Import String Ascii List Bool Arith PeanoNat Permutation Lia DecimalString DecimalNat Decimal.
 From V Require Import Model.NamesM.
 Import ListNotations.
+Open Scope string_scope.
+
+(* ================================================================== induction principle for the nested type *)
+Section ExprInd.
+  Variable P : expr -> Prop.
+  Hypothesis HNum : forall s, P (Num s).
+  Hypothesis HSym : forall s, P (Sym s).
+  Hypothesis HVec : forall n, P (Vec n).
+  Hypothesis HChain : forall ops a, P (Chain ops a).
+  Hypothesis HAdd : forall l, Forall P l -> P (Add l).
+  Hypothesis HMul : forall l, Forall P l -> P (Mul l).
+  Hypothesis HPow : forall b e, P b -> P e -> P (Pow b e).
+  Hypothesis HFn : forall f l, Forall P l -> P (Fn f l).
+  Hypothesis HTup : forall l, Forall P l -> P (Tup l).
+  Hypothesis HSeq : forall l, Forall P l -> P (Seq l).
+  Hypothesis HMat : forall imm rows, Forall (Forall P) rows -> P (Mat imm rows).
+
+  Fixpoint expr_ind' (e : expr) : P e :=
+    let fix go (l : list expr) : Forall P l :=
+      match l with [] => Forall_nil P | x :: r => Forall_cons x (expr_ind' x) (go r) end in
+    let fix go2 (rows : list (list expr)) : Forall (Forall P) rows :=
+      match rows with [] => Forall_nil _ | r :: rs => Forall_cons r (go r) (go2 rs) end in
+    match e with
+    | Num s => HNum s
+    | Sym s => HSym s
+    | Vec n => HVec n
+    | Chain ops a => HChain ops a
+    | Add l => HAdd l (go l)
+    | Mul l => HMul l (go l)
+    | Pow b x => HPow b x (expr_ind' b) (expr_ind' x)
+    | Fn f l => HFn f l (go l)
+    | Tup l => HTup l (go l)
+    | Seq l => HSeq l (go l)
+    | Mat imm rows => HMat imm rows (go2 rows)
+    end.
+End ExprInd.
+
+(* ================================================================== strings *)
+Fixpoint cnt (c : ascii) (s : string) : nat :=
+  match s with
+  | EmptyString => 0
+  | String a r => (if Ascii.eqb c a then 1 else 0) + cnt c r
+  end.
+
+Lemma cnt_app c s t : cnt c (s ++ t) = cnt c s + cnt c t.
+Proof. induction s as [|a s IH]; simpl; [reflexivity|]. rewrite IH. lia. Qed.
+
+Lemma cnt_rep c s n : cnt c (rep s n) = n * cnt c s.
+Proof. induction n as [|n IH]; simpl; [reflexivity|]. rewrite cnt_app, IH. lia. Qed.
+
+Lemma app_assoc_s (a b c : string) : (a ++ b) ++ c = a ++ (b ++ c).
+Proof. induction a as [|x a IH]; simpl; [reflexivity|]. now rewrite IH. Qed.
+
+Lemma app_nil_r_s (a : string) : a ++ "" = a.
+Proof. induction a as [|x a IH]; simpl; [reflexivity|]. now rewrite IH. Qed.
+
+Definition sep : ascii := "_"%char.
+(* name hygiene: the separator does not occur *)
+Definition nosep (s : string) : Prop := cnt sep s = 0.
+(* a suffix is empty or starts with the separator *)
+Definition tailok (s : string) : Prop := s = "" \/ exists r, s = String sep r.
+
+Lemma nosep_cons a r : nosep (String a r) -> a <> sep /\ nosep r.
+Proof.
+  unfold nosep. cbn [cnt]. destruct (Ascii.eqb sep a) eqn:E; [intros H; lia|].
+  intros H. split; [|lia]. intros ->. rewrite Ascii.eqb_refl in E. discriminate.
+Qed.
+
+(* the base name can be read off a generated name: everything before the first separator *)
+Lemma app_nosep_inj : forall n1 n2 s1 s2,
+  nosep n1 -> nosep n2 -> tailok s1 -> tailok s2 ->
+  n1 ++ s1 = n2 ++ s2 -> n1 = n2 /\ s1 = s2.
+Proof.
+  induction n1 as [|a n1 IH]; intros [|b n2] s1 s2 H1 H2 T1 T2 E; simpl in E.
+  - auto.
+  - apply nosep_cons in H2. destruct H2 as [Hb _]. destruct T1 as [-> | [r ->]]; [discriminate|].
+    inversion E. congruence.
+  - apply nosep_cons in H1. destruct H1 as [Ha _]. destruct T2 as [-> | [r ->]]; [discriminate|].
+    inversion E. congruence.
+  - inversion E. subst b. apply nosep_cons in H1, H2.
+    destruct (IH n2 s1 s2) as [-> ->]; tauto.
+Qed.
+
+(* a sharper, pairwise form of hygiene: neither name is the other one followed by the separator and more *)
+Definition ext (n m : string) : Prop := exists t, n = m ++ String sep t.
+
+Lemma app_eq_app_s : forall n1 n2 s1 s2 : string,
+  n1 ++ s1 = n2 ++ s2 ->
+  exists t, (n1 = n2 ++ t /\ s2 = t ++ s1) \/ (n2 = n1 ++ t /\ s1 = t ++ s2).
+Proof.
+  induction n1 as [|a n1 IH]; intros n2 s1 s2 E; simpl in E.
+  - exists n2. right. auto.
+  - destruct n2 as [|b n2]; simpl in E.
+    + exists (String a n1). left. auto.
+    + inversion E. subst b. destruct (IH n2 s1 s2 H1) as [t [[H2 H3]|[H2 H3]]]; exists t; [left|right];
+        split; simpl; congruence.
+Qed.
+
+Lemma app_ext_inj n1 n2 s1 s2 :
+  ~ ext n1 n2 -> ~ ext n2 n1 -> tailok s1 -> tailok s2 ->
+  n1 ++ s1 = n2 ++ s2 -> n1 = n2 /\ s1 = s2.
+Proof.
+  intros X1 X2 T1 T2 E. apply app_eq_app_s in E. destruct E as [t [[H1 H2]|[H1 H2]]].
+  - destruct t as [|c t]; [rewrite app_nil_r_s in H1; simpl in H2; auto|].
+    exfalso. destruct T2 as [T2|[r T2]]; rewrite T2 in H2; simpl in H2; [discriminate|].
+    inversion H2. subst c. apply X1. exists t. exact H1.
+  - destruct t as [|c t]; [rewrite app_nil_r_s in H1; simpl in H2; auto|].
+    exfalso. destruct T1 as [T1|[r T1]]; rewrite T1 in H2; simpl in H2; [discriminate|].
+    inversion H2. subst c. apply X2. exists t. exact H1.
+Qed.
+
+Lemma cnt_pos_app c (a b : string) : cnt c (a ++ String c b) <> 0.
+Proof. rewrite cnt_app. cbn [cnt]. rewrite Ascii.eqb_refl. lia. Qed.
+
+Lemma nosep_not_ext n m : nosep n -> ~ ext n m.
+Proof. intros H [t E]. unfold nosep in H. rewrite E in H. now apply cnt_pos_app in H. Qed.
+
+Definition hd_s (s : string) : option ascii := match s with EmptyString => None | String a _ => Some a end.
+
+Lemma hd_app s t : s <> "" -> hd_s (s ++ t) = hd_s s.
+Proof. destruct s; simpl; congruence. Qed.
+
+(* ------------------------------------------------------------------ decimal numerals *)
+Definition digitb (a : ascii) : bool :=
+  existsb (Ascii.eqb a) ["0"; "1"; "2"; "3"; "4"; "5"; "6"; "7"; "8"; "9"]%char.
+Fixpoint all_digits (s : string) : bool :=
+  match s with EmptyString => true | String a r => digitb a && all_digits r end.
+
+Lemma string_of_uint_digits d : all_digits (NilEmpty.string_of_uint d) = true.
+Proof. induction d; simpl; auto. Qed.
+
+Lemma all_digits_nosep s : all_digits s = true -> nosep s.
+Proof.
+  unfold nosep. induction s as [|a s IH]; cbn [cnt all_digits]; [reflexivity|].
+  intros H. apply andb_true_iff in H. destruct H as [Ha Hs]. rewrite (IH Hs).
+  destruct (Ascii.eqb sep a) eqn:E; [|reflexivity].
+  apply Ascii.eqb_eq in E. subst a. discriminate.
+Qed.
+
+Lemma dec_digits n : all_digits (dec n) = true.
+Proof. apply string_of_uint_digits. Qed.
+
+Lemma dec_nosep n : nosep (dec n).
+Proof. apply all_digits_nosep, dec_digits. Qed.
+
+Lemma dec_inj n m : dec n = dec m -> n = m.
+Proof.
+  unfold dec. intros H.
+  assert (K : Some (Nat.to_uint n) = Some (Nat.to_uint m)).
+  { rewrite <- !NilEmpty.usu. now rewrite H. }
+  inversion K as [K']. rewrite <- (Unsigned.of_to n), <- (Unsigned.of_to m). now rewrite K'.
+Qed.
+
+Lemma dec_nonempty n : dec n <> "".
+Proof.
+  intros H. assert (K : dec n = dec 0 -> n = 0) by apply dec_inj.
+  unfold dec in H.
+  assert (Q : Some (Nat.to_uint n) = Some Nil).
+  { rewrite <- NilEmpty.usu. rewrite H. reflexivity. }
+  inversion Q as [Q']. assert (n = 0) by (rewrite <- (Unsigned.of_to n), Q'; reflexivity).
+  subst n. discriminate H.
+Qed.
+
+Lemma dec_hd_digit n : exists a, hd_s (dec n) = Some a /\ digitb a = true.
+Proof.
+  pose proof (dec_digits n) as D. pose proof (dec_nonempty n) as N.
+  destruct (dec n) as [|a r]; [congruence|]. simpl in D. apply andb_true_iff in D.
+  exists a. simpl. tauto.
+Qed.
+
+(* ------------------------------------------------------------------ derivative codes *)
+Definition is0 (t : idx3) : bool := match t with (0, 0, 0) => true | _ => false end.
+
+Lemma is0_true t : is0 t = true <-> t = (0, 0, 0).
+Proof. destruct t as [[[|a] [|b]] [|c]]; simpl; split; congruence. Qed.
+
+Lemma cnt_code_phys ch a b c :
+  cnt ch (code_phys (a, b, c)) = a * cnt ch "x" + b * cnt ch "y" + c * cnt ch "z".
+Proof. unfold code_phys. rewrite !cnt_app, !cnt_rep. lia. Qed.
+
+Lemma cnt_code_log ch a b c :
+  cnt ch (code_log (a, b, c)) = a * cnt ch "x1" + b * cnt ch "x2" + c * cnt ch "x3".
+Proof. unfold code_log. rewrite !cnt_app, !cnt_rep. lia. Qed.
+
+Lemma code_phys_inj p q : code_phys p = code_phys q -> p = q.
+Proof.
+  destruct p as [[a b] c], q as [[a' b'] c']. intros H.
+  pose proof (f_equal (cnt "x") H) as Hx. pose proof (f_equal (cnt "y") H) as Hy.
+  pose proof (f_equal (cnt "z") H) as Hz. rewrite !cnt_code_phys in Hx, Hy, Hz. simpl in Hx, Hy, Hz.
+  f_equal; [f_equal|]; lia.
+Qed.
+
+Lemma code_log_inj p q : code_log p = code_log q -> p = q.
+Proof.
+  destruct p as [[a b] c], q as [[a' b'] c']. intros H.
+  pose proof (f_equal (cnt "1") H) as H1. pose proof (f_equal (cnt "2") H) as H2.
+  pose proof (f_equal (cnt "3") H) as H3. rewrite !cnt_code_log in H1, H2, H3. simpl in H1, H2, H3.
+  f_equal; [f_equal|]; lia.
+Qed.
+
+(* a physical code never equals a non-empty logical code: the latter contains digits *)
+Lemma code_phys_log p l : code_phys p = code_log l -> l = (0, 0, 0).
+Proof.
+  destruct p as [[a b] c], l as [[a' b'] c']. intros H.
+  pose proof (f_equal (cnt "1") H) as H1. pose proof (f_equal (cnt "2") H) as H2.
+  pose proof (f_equal (cnt "3") H) as H3.
+  rewrite cnt_code_phys, cnt_code_log in H1, H2, H3. simpl in H1, H2, H3.
+  f_equal; [f_equal|]; lia.
+Qed.
+
+Lemma code_phys_nosep p : nosep (code_phys p).
+Proof. destruct p as [[a b] c]. unfold nosep. rewrite cnt_code_phys. simpl. lia. Qed.
+Lemma code_log_nosep p : nosep (code_log p).
+Proof. destruct p as [[a b] c]. unfold nosep. rewrite cnt_code_log. simpl. lia. Qed.
+
+Definition letterb (a : ascii) : bool := existsb (Ascii.eqb a) ["x"; "y"; "z"]%char.
+
+Lemma code_phys_hd p : is0 p = false -> exists a, hd_s (code_phys p) = Some a /\ letterb a = true.
+Proof.
+  destruct p as [[[|a] [|b]] [|c]]; simpl; try discriminate; intros _;
+    (eexists; split; [reflexivity|reflexivity]).
+Qed.
+Lemma code_log_hd p : is0 p = false -> exists a, hd_s (code_log p) = Some a /\ letterb a = true.
+Proof.
+  destruct p as [[[|a] [|b]] [|c]]; simpl; try discriminate; intros _;
+    (eexists; split; [reflexivity|reflexivity]).
+Qed.
+
+Lemma letter_not_digit a : letterb a = true -> digitb a = true -> False.
+Proof.
+  unfold letterb, digitb. simpl. rewrite !orb_false_r, !orb_true_iff, !Ascii.eqb_eq.
+  intros [-> | [-> | ->]]; intros H; repeat (destruct H as [H|H]; [discriminate|]); discriminate.
+Qed.
+
+Lemma code_phys_nonempty p : is0 p = false -> String.eqb (code_phys p) "" = false.
+Proof.
+  intros H. destruct (code_phys_hd p H) as [a [Ha _]]. destruct (code_phys p); [discriminate|reflexivity].
+Qed.
+Lemma code_log_nonempty p : is0 p = false -> String.eqb (code_log p) "" = false.
+Proof.
+  intros H. destruct (code_log_hd p H) as [a [Ha _]]. destruct (code_log p); [discriminate|reflexivity].
+Qed.
+
+(* ================================================================== the name of a pure chain *)
+Definition pure (ops : list dop) : bool := forallb is_phys ops || forallb is_log ops.
+
+(* multi-indices of pure chains: only physical or only logical orders *)
+Definition pure_mi (m : idx3 * idx3) : Prop := is0 (fst m) = true \/ is0 (snd m) = true.
+
+Definition fname (a : fatom) : string := match a with FScal n => n | FComp n _ => n end.
+Definition base_name (a : fatom) : string :=
+  match a with FScal n => n | FComp n i => n ++ "_" ++ dec i end.
+Definition code_suffix (m : idx3 * idx3) : string :=
+  if negb (is0 (fst m)) then "_" ++ code_phys (fst m)
+  else if negb (is0 (snd m)) then "_" ++ code_log (snd m) else "".
+(* the canonical name of the identity (component, multi-index) *)
+Definition spec_name (a : fatom) (m : idx3 * idx3) : string := base_name a ++ code_suffix m.
+
+Lemma count_phys_log d ops : is_log d = true -> forallb is_phys ops = true -> count d ops = 0.
+Proof.
+  intros Hd. induction ops as [|o r IH]; simpl; [reflexivity|].
+  intros H. apply andb_true_iff in H. destruct H as [Ho Hr]. rewrite (IH Hr).
+  destruct d, o; simpl in *; try discriminate; reflexivity.
+Qed.
+Lemma count_log_phys d ops : is_phys d = true -> forallb is_log ops = true -> count d ops = 0.
+Proof.
+  intros Hd. induction ops as [|o r IH]; simpl; [reflexivity|].
+  intros H. apply andb_true_iff in H. destruct H as [Ho Hr]. rewrite (IH Hr).
+  destruct d, o; simpl in *; try discriminate; reflexivity.
+Qed.
+
+Lemma phys_log_index ops : forallb is_phys ops = true -> log_index ops = (0, 0, 0).
+Proof. intros H. unfold log_index. now rewrite !count_phys_log. Qed.
+Lemma log_phys_index ops : forallb is_log ops = true -> phys_index ops = (0, 0, 0).
+Proof. intros H. unfold phys_index. now rewrite !count_log_phys. Qed.
+
+Lemma phys_index_nonzero o r : is_phys o = true -> is0 (phys_index (o :: r)) = false.
+Proof. unfold phys_index. destruct o; simpl; try discriminate; intros _; repeat destruct (count _ r); reflexivity. Qed.
+Lemma log_index_nonzero o r : is_log o = true -> is0 (log_index (o :: r)) = false.
+Proof. unfold log_index. destruct o; simpl; try discriminate; intros _; repeat destruct (count _ r); reflexivity. Qed.
+
+Lemma pure_mi_of ops : pure ops = true -> pure_mi (multi_index ops).
+Proof.
+  unfold pure, pure_mi, multi_index. cbn [fst snd]. intros H. apply orb_true_iff in H. destruct H as [H|H].
+  - right. now rewrite phys_log_index.
+  - left. now rewrite log_phys_index.
+Qed.
+
+Lemma chain_eval_strip_phys r a c : forallb is_phys r = true -> chain_eval (Some KP) r a c = atom_name a c.
+Proof.
+  induction r as [|o r IH]; simpl; [reflexivity|]. intros H. apply andb_true_iff in H.
+  destruct H as [Ho Hr]. unfold kind_of. rewrite Ho. simpl. auto.
+Qed.
+Lemma chain_eval_strip_log r a c : forallb is_log r = true -> chain_eval (Some KL) r a c = atom_name a c.
+Proof.
+  induction r as [|o r IH]; simpl; [reflexivity|]. intros H. apply andb_true_iff in H.
+  destruct H as [Ho Hr]. unfold kind_of. unfold is_log in Ho. apply negb_true_iff in Ho. rewrite Ho. simpl. auto.
+Qed.
+
+Lemma atom_name_code a c : String.eqb c "" = false -> atom_name a (Some c) = base_name a ++ "_" ++ c.
+Proof. intros H. destruct a; simpl; rewrite H; reflexivity. Qed.
+
+Lemma code_suffix_phys m : is0 (fst m) = false -> code_suffix m = "_" ++ code_phys (fst m).
+Proof. unfold code_suffix. now intros ->. Qed.
+Lemma code_suffix_log m : is0 (fst m) = true -> is0 (snd m) = false -> code_suffix m = "_" ++ code_log (snd m).
+Proof. unfold code_suffix. now intros -> ->. Qed.
+
+(* on pure chains SymbolicExpr computes the canonical name of the identity *)
+Lemma chain_name_pure ops a : pure ops = true -> chain_name ops a = spec_name a (multi_index ops).
+Proof.
+  unfold pure, chain_name, spec_name. intros H. destruct ops as [|o r].
+  - simpl. destruct a; simpl; now rewrite ?app_nil_r_s.
+  - apply orb_true_iff in H. destruct H as [H|H].
+    + pose proof H as H'. simpl in H'. apply andb_true_iff in H'. destruct H' as [Ho Hr].
+      cbn [chain_eval]. unfold kind_of. rewrite Ho. rewrite chain_eval_strip_phys by exact Hr.
+      rewrite code_suffix_phys by (apply phys_index_nonzero; exact Ho).
+      apply atom_name_code. apply code_phys_nonempty. now apply phys_index_nonzero.
+    + pose proof H as H'. simpl in H'. apply andb_true_iff in H'. destruct H' as [Ho Hr].
+      cbn [chain_eval]. unfold kind_of. pose proof Ho as Ho'. unfold is_log in Ho'. apply negb_true_iff in Ho'.
+      rewrite Ho'. rewrite chain_eval_strip_log by exact Hr.
+      rewrite code_suffix_log.
+      * apply atom_name_code. apply code_log_nonempty. now apply log_index_nonzero.
+      * unfold multi_index. cbn [fst]. now rewrite (log_phys_index (o :: r) H).
+      * unfold multi_index. cbn [snd]. now apply log_index_nonzero.
+Qed.
+
+(* ------------------------------------------------------------------ injectivity of the canonical name *)
+Lemma code_suffix_tailok m : tailok (code_suffix m).
+Proof.
+  unfold code_suffix, tailok. destruct (negb (is0 (fst m))); [right; eexists; reflexivity|].
+  destruct (negb (is0 (snd m))); [right; eexists; reflexivity|auto].
+Qed.
+
+Lemma code_suffix_inj m1 m2 : pure_mi m1 -> pure_mi m2 -> code_suffix m1 = code_suffix m2 -> m1 = m2.
+Proof.
+  destruct m1 as [p1 l1], m2 as [p2 l2]. unfold pure_mi, code_suffix. cbn [fst snd].
+  intros P1 P2.
+  destruct (is0 p1) eqn:Ep1, (is0 l1) eqn:El1, (is0 p2) eqn:Ep2, (is0 l2) eqn:El2; simpl;
+    try (destruct P1; discriminate); try (destruct P2; discriminate);
+    repeat match goal with H : is0 _ = true |- _ => apply is0_true in H; subst end;
+    intros E; try discriminate E; try reflexivity.
+  - inversion E as [E']. apply code_log_inj in E'. now subst.
+  - inversion E as [E']. symmetry in E'. apply code_phys_log in E'. subst. discriminate.
+  - inversion E as [E']. apply code_phys_log in E'. subst. discriminate.
+  - inversion E as [E']. apply code_phys_inj in E'. now subst.
+Qed.
+
+Lemma code_suffix_hd m : code_suffix m = "" \/ exists a r, code_suffix m = String sep (String a r) /\ letterb a = true.
+Proof.
+  unfold code_suffix. destruct (is0 (fst m)) eqn:E1; simpl.
+  - destruct (is0 (snd m)) eqn:E2; simpl; [auto|]. right.
+    destruct (code_log_hd _ E2) as [a [Ha La]]. destruct (code_log (snd m)) as [|b r]; [discriminate|].
+    simpl in Ha. inversion Ha. subst. eauto.
+  - right. destruct (code_phys_hd _ E1) as [a [Ha La]]. destruct (code_phys (fst m)) as [|b r]; [discriminate|].
+    simpl in Ha. inversion Ha. subst. eauto.
+Qed.
+
+Theorem spec_name_inj_family a1 a2 m1 m2 :
+  ~ ext (fname a1) (fname a2) -> ~ ext (fname a2) (fname a1) -> pure_mi m1 -> pure_mi m2 ->
+  spec_name a1 m1 = spec_name a2 m2 -> a1 = a2 /\ m1 = m2.
+Proof.
+  intros H1 H2 P1 P2. unfold spec_name.
+  destruct a1 as [n1|n1 i1], a2 as [n2|n2 i2]; simpl in *; intros E.
+  - apply app_ext_inj in E; auto using code_suffix_tailok. destruct E as [-> E].
+    apply code_suffix_inj in E; auto; try (now subst).
+  - exfalso. rewrite !app_assoc_s in E. apply app_ext_inj in E; auto using code_suffix_tailok.
+    2:{ right. eexists. reflexivity. }
+    destruct E as [_ E]. destruct (code_suffix_hd m1) as [K|[a [r [K La]]]]; rewrite K in E; [discriminate|].
+    simpl in E. inversion E as [E']. destruct (dec_hd_digit i2) as [d [Hd Dd]].
+    assert (Q : hd_s (dec i2 ++ code_suffix m2) = Some d) by (rewrite hd_app; auto using dec_nonempty).
+    rewrite <- E' in Q. simpl in Q. inversion Q. subst. eapply letter_not_digit; eauto.
+  - exfalso. rewrite !app_assoc_s in E. symmetry in E. apply app_ext_inj in E; auto using code_suffix_tailok.
+    2:{ right. eexists. reflexivity. }
+    destruct E as [_ E]. destruct (code_suffix_hd m2) as [K|[a [r [K La]]]]; rewrite K in E; [discriminate|].
+    simpl in E. inversion E as [E']. destruct (dec_hd_digit i1) as [d [Hd Dd]].
+    assert (Q : hd_s (dec i1 ++ code_suffix m1) = Some d) by (rewrite hd_app; auto using dec_nonempty).
+    rewrite <- E' in Q. simpl in Q. inversion Q. subst. eapply letter_not_digit; eauto.
+  - rewrite !app_assoc_s in E. apply app_ext_inj in E; auto.
+    2,3: right; eexists; reflexivity.
+    destruct E as [-> E]. simpl in E. inversion E as [E'].
+    apply app_nosep_inj in E'; auto using dec_nosep, code_suffix_tailok.
+    destruct E' as [Ed Es]. apply dec_inj in Ed. apply code_suffix_inj in Es; auto; try (now subst).
+Qed.
+
+Theorem spec_name_inj a1 a2 m1 m2 :
+  nosep (fname a1) -> nosep (fname a2) -> pure_mi m1 -> pure_mi m2 ->
+  spec_name a1 m1 = spec_name a2 m2 -> a1 = a2 /\ m1 = m2.
+Proof. intros H1 H2. apply spec_name_inj_family; now apply nosep_not_ext. Qed.
+
+(* ------------------------------------------------------------------ the naming theorems *)
+(* two chains get the same symbol exactly when component and multi-index coincide *)
+Theorem sym_name_iff ops1 a1 ops2 a2 :
+  nosep (fname a1) -> nosep (fname a2) -> pure ops1 = true -> pure ops2 = true ->
+  (chain_name ops1 a1 = chain_name ops2 a2 <-> a1 = a2 /\ multi_index ops1 = multi_index ops2).
+Proof.
+  intros H1 H2 P1 P2. rewrite !chain_name_pure by assumption. split.
+  - apply spec_name_inj; auto using pure_mi_of.
+  - intros [-> ->]. reflexivity.
+Qed.
+
+(* the same under the sharper pairwise hygiene: names such as u_h are admitted as long as no function of the
+   kernel is called like another one followed by '_...' *)
+Theorem sym_name_iff_family ops1 a1 ops2 a2 :
+  ~ ext (fname a1) (fname a2) -> ~ ext (fname a2) (fname a1) -> pure ops1 = true -> pure ops2 = true ->
+  (chain_name ops1 a1 = chain_name ops2 a2 <-> a1 = a2 /\ multi_index ops1 = multi_index ops2).
+Proof.
+  intros H1 H2 P1 P2. rewrite !chain_name_pure by assumption. split.
+  - apply spec_name_inj_family; auto using pure_mi_of.
+  - intros [-> ->]. reflexivity.
+Qed.
+
+Lemma count_perm d l l' : Permutation l l' -> count d l = count d l'.
+Proof. induction 1; simpl; lia. Qed.
+
+Lemma forallb_perm {A} (f : A -> bool) l l' : Permutation l l' -> forallb f l = forallb f l'.
+Proof.
+  induction 1; simpl; auto.
+  - now rewrite IHPermutation.
+  - destruct (f x), (f y); reflexivity.
+  - congruence.
+Qed.
+
+Lemma multi_index_perm l l' : Permutation l l' -> multi_index l = multi_index l'.
+Proof.
+  intros H. unfold multi_index, phys_index, log_index.
+  now rewrite !(count_perm _ _ _ H).
+Qed.
+
+Lemma pure_perm l l' : Permutation l l' -> pure l = pure l'.
+Proof. intros H. unfold pure. now rewrite (forallb_perm is_phys _ _ H), (forallb_perm is_log _ _ H). Qed.
+
+(* the order of differentiation does not matter (no hygiene needed) *)
+Theorem sym_name_perm ops1 ops2 a :
+  Permutation ops1 ops2 -> pure ops1 = true -> chain_name ops1 a = chain_name ops2 a.
+Proof.
+  intros H P. rewrite !chain_name_pure; [|now rewrite <- (pure_perm _ _ H)|assumption].
+  now rewrite (multi_index_perm _ _ H).
+Qed.
+
+(* the symbol of a chain, as produced by SymbolicExpr on the kernel that consists of the chain *)
+Theorem same_symbol_iff ops1 a1 ops2 a2 :
+  nosep (fname a1) -> nosep (fname a2) -> pure ops1 = true -> pure ops2 = true ->
+  (symbolic (Chain ops1 a1) = symbolic (Chain ops2 a2) <-> a1 = a2 /\ multi_index ops1 = multi_index ops2).
+Proof.
+  intros. simpl. rewrite <- sym_name_iff by eassumption. split; [intros E; now inversion E|intros ->; reflexivity].
+Qed.
+
+(* without hygiene: the function literally named u_x and dx(u);  the function w_0 and the component w[0] *)
+Theorem name_collision_refuted :
+  exists ops1 a1 ops2 a2, pure ops1 = true /\ pure ops2 = true /\
+    chain_name ops1 a1 = chain_name ops2 a2 /\ ~ (a1 = a2 /\ multi_index ops1 = multi_index ops2).
+Proof.
+  exists [Dx], (FScal "u"), [], (FScal "u_x"). repeat split; try reflexivity. intros [E _]. discriminate.
+Qed.
+Theorem component_collision_refuted :
+  exists a1 a2, a1 <> a2 /\ chain_name [] a1 = chain_name [] a2.
+Proof. exists (FComp "w" 0), (FScal "w_0"). split; [discriminate|reflexivity]. Qed.
+
+(* hygienic names but a chain that mixes physical and logical operators: the outer code is dropped *)
+Theorem mixed_chain_refuted :
+  exists ops1 ops2 a, nosep (fname a) /\
+    chain_name ops1 a = chain_name ops2 a /\ multi_index ops1 <> multi_index ops2.
+Proof. exists [Dx; D1], [D1], (FScal "u"). repeat split; try reflexivity. discriminate. Qed.
+Theorem mixed_order_refuted :
+  exists ops1 ops2 a, nosep (fname a) /\ Permutation ops1 ops2 /\ chain_name ops1 a <> chain_name ops2 a.
+Proof.
+  exists [Dx; D1], [D1; Dx], (FScal "u"). repeat split; try reflexivity; [apply perm_swap|discriminate].
+Qed.
+
+(* ================================================================== SymbolicExpr as a homomorphism *)
+(* a sympy expression in which no terminal expression (function, component, derivative) is left *)
+Fixpoint plainb (e : expr) : bool :=
+  match e with
+  | Num _ | Sym _ => true
+  | Vec _ | Chain _ _ | Seq _ => false
+  | Add l | Mul l | Fn _ l | Tup l => forallb plainb l
+  | Pow b x => plainb b && plainb x
+  | Mat _ rows => forallb (forallb plainb) rows
+  end.
+
+(* every exponent is free of terminal expressions *)
+Fixpoint exps_plain (e : expr) : bool :=
+  match e with
+  | Num _ | Sym _ | Vec _ | Chain _ _ => true
+  | Add l | Mul l | Fn _ l | Tup l | Seq l => forallb exps_plain l
+  | Pow b x => exps_plain b && plainb x
+  | Mat _ rows => forallb (forallb exps_plain) rows
+  end.
+
+(* the homomorphic extension of a renaming of the terminal expressions (what substitution does) *)
+Fixpoint subst (sigma : list dop -> fatom -> string) (e : expr) : expr :=
+  match e with
+  | Num s => Num s
+  | Sym s => Sym s
+  | Vec n => Sym n
+  | Chain ops a => Sym (sigma ops a)
+  | Add l => Add (map (subst sigma) l)
+  | Mul l => Mul (map (subst sigma) l)
+  | Pow b x => Pow (subst sigma b) (subst sigma x)
+  | Fn f l => Fn f (map (subst sigma) l)
+  | Tup l => Tup (map (subst sigma) l)
+  | Seq l => Tup (map (subst sigma) l)
+  | Mat imm rows => Mat imm (map (map (subst sigma)) rows)
+  end.
+
 Lemma symbolic_add l : symbolic (Add l) = Add (map symbolic l).
 Proof. reflexivity. Qed.
+Lemma symbolic_mul l : symbolic (Mul l) = Mul (map symbolic l).
+Proof. reflexivity. Qed.
+Lemma symbolic_fn f l : symbolic (Fn f l) = Fn f (map symbolic l).
+Proof. reflexivity. Qed.
+Lemma symbolic_tuple l : symbolic (Tup l) = Tup (map symbolic l) /\ symbolic (Seq l) = Tup (map symbolic l).
+Proof. split; reflexivity. Qed.
+Lemma symbolic_matrix imm rows : symbolic (Mat imm rows) = Mat imm (map (map symbolic) rows).
+Proof. reflexivity. Qed.
+
+Lemma map_id_Forall {A} (f : A -> A) l : Forall (fun x => f x = x) l -> map f l = l.
+Proof. induction 1; simpl; congruence. Qed.
+
+Lemma map_ext_Forall {A B} (f g : A -> B) l : Forall (fun x => f x = g x) l -> map f l = map g l.
+Proof. induction 1; simpl; congruence. Qed.
+
+Lemma Forall_impl_forallb {A} (p : A -> bool) (Q : A -> Prop) l :
+  Forall (fun x => p x = true -> Q x) l -> forallb p l = true -> Forall Q l.
+Proof.
+  induction 1; simpl; intros H'; constructor; apply andb_true_iff in H'; destruct H'; auto.
+Qed.
+
+Lemma subst_plain sigma e : plainb e = true -> subst sigma e = e.
+Proof.
+  induction e using expr_ind'; simpl; intros Hp; try reflexivity; try discriminate;
+    try (f_equal; apply map_id_Forall; eapply Forall_impl_forallb; eassumption).
+  - apply andb_true_iff in Hp. destruct Hp. f_equal; auto.
+  - f_equal. apply map_id_Forall.
+    assert (K : Forall (fun r => forallb plainb r = true -> map (subst sigma) r = r) rows).
+    { eapply Forall_impl; [|exact H]. intros r Hr Hpr. apply map_id_Forall.
+      eapply Forall_impl_forallb; eassumption. }
+    eapply Forall_impl_forallb; eassumption.
+Qed.
+
+(* SymbolicExpr is the homomorphic extension of chain -> symbol, provided no exponent contains a terminal *)
+Theorem symbolic_is_subst e : exps_plain e = true -> symbolic e = subst chain_name e.
+Proof.
+  induction e using expr_ind'; simpl; intros Hp; try reflexivity;
+    try (f_equal; apply map_ext_Forall; eapply Forall_impl_forallb; eassumption).
+  - apply andb_true_iff in Hp. destruct Hp as [Hb Hx]. rewrite (subst_plain _ _ Hx). f_equal; auto.
+  - f_equal. apply map_ext_Forall.
+    assert (K : Forall (fun r => forallb exps_plain r = true -> map symbolic r = map (subst chain_name) r) rows).
+    { eapply Forall_impl; [|exact H]. intros r Hr Hpr. apply map_ext_Forall.
+      eapply Forall_impl_forallb; eassumption. }
+    eapply Forall_impl_forallb; eassumption.
+Qed.
+
+Lemma forallb_map {A B} (p : B -> bool) (f : A -> B) l : forallb p (map f l) = forallb (fun x => p (f x)) l.
+Proof. induction l; simpl; congruence. Qed.
+
+Lemma forallb_Forall_true {A} (p : A -> bool) l : Forall (fun x => p x = true) l -> forallb p l = true.
+Proof. induction 1; simpl; auto. rewrite H. auto. Qed.
+
+Lemma subst_plainb sigma e : plainb (subst sigma e) = true.
+Proof.
+  induction e using expr_ind'; simpl; try reflexivity;
+    try (rewrite forallb_map; apply forallb_Forall_true; assumption).
+  - now rewrite IHe1, IHe2.
+  - rewrite forallb_map. apply forallb_Forall_true. eapply Forall_impl; [|exact H].
+    intros r Hr. rewrite forallb_map. now apply forallb_Forall_true.
+Qed.
+
+(* ... and then the result contains plain symbols only *)
+Theorem symbolic_plain e : exps_plain e = true -> plainb (symbolic e) = true.
+Proof. intros H. rewrite (symbolic_is_subst _ H). apply subst_plainb. Qed.
+
+Theorem symbolic_pow_const b x : plainb x = true -> symbolic (Pow b x) = Pow (symbolic b) (symbolic x).
+Proof.
+  intros H. simpl. f_equal. assert (E : exps_plain x = true).
+  { clear b. induction x using expr_ind'; simpl in *; try reflexivity; try discriminate;
+      try (apply forallb_Forall_true; eapply Forall_impl_forallb; eassumption).
+    - apply andb_true_iff in H. destruct H as [H1 H2]. now rewrite IHx1.
+    - apply forallb_Forall_true.
+      assert (K : Forall (fun r => forallb plainb r = true -> forallb exps_plain r = true) rows).
+      { eapply Forall_impl; [|exact H0]. intros r Hr Hpr. apply forallb_Forall_true.
+        eapply Forall_impl_forallb; eassumption. }
+      eapply Forall_impl_forallb; eassumption. }
+  rewrite (symbolic_is_subst _ E). symmetry. now apply subst_plain.
+Qed.
+
+(* the exponent is passed through untranslated: 2**dx(u) *)
+Theorem symbolic_pow_refuted :
+  exists b x, symbolic (Pow b x) <> Pow (symbolic b) (symbolic x) /\ plainb (symbolic (Pow b x)) = false.
+Proof. exists (Num "2"), (Chain [Dx] (FScal "u")). split; [discriminate|reflexivity]. Qed.
+
+(* ================================================================== maximal orders *)
+(* every derivative chain occurring anywhere in a kernel *)
+Fixpoint chains_of (e : expr) : list chain :=
+  match e with
+  | Chain (o :: r) a => [(o :: r, a)]
+  | Add l | Mul l | Fn _ l | Tup l | Seq l => flat_map chains_of l
+  | Pow b x => chains_of b ++ chains_of x
+  | Mat _ rows => flat_map (flat_map chains_of) rows
+  | _ => []
+  end.
+
+(* which chains a query is about: all / those of one function atom / those of the components of a vector function *)
+Definition qmatch (q : option query) (c : chain) : bool :=
+  match q with
+  | None => true
+  | Some (QAtom f) => fatom_eqb (snd c) f
+  | Some (QVec n) => match snd c with FComp m _ => String.eqb m n | FScal _ => false end
+  end.
+
+(* the true maximal order in direction d *)
+Definition true_max (d : dop) (e : expr) (q : option query) : nat :=
+  list_max (map (fun c : chain => count d (fst c)) (filter (qmatch q) (chains_of e))).
+
+(* the part of the kernel language that find_partial_derivatives enters completely *)
+Fixpoint chain_free (e : expr) : bool :=
+  match e with
+  | Chain (_ :: _) _ => false
+  | Add l | Mul l | Fn _ l | Tup l | Seq l => forallb chain_free l
+  | Pow b x => chain_free b && chain_free x
+  | Mat _ rows => forallb (forallb chain_free) rows
+  | _ => true
+  end.
+Fixpoint entered (e : expr) : bool :=
+  match e with
+  | Add l | Mul l | Tup l | Seq l => forallb entered l
+  | Pow b x => entered b && chain_free x
+  | Fn _ l => forallb chain_free l
+  | Mat _ rows => forallb (forallb chain_free) rows
+  | _ => true
+  end.
+Definition pure_chains (e : expr) : bool := forallb (fun c : chain => pure (fst c)) (chains_of e).
+
+(* ------------------------------------------------------------------ list facts *)
+Lemma list_max_In x l : In x l -> x <= list_max l.
+Proof.
+  intros H. assert (K : list_max l <= list_max l) by lia. apply list_max_le in K.
+  rewrite Forall_forall in K. auto.
+Qed.
+
+Lemma list_max_le_ex l1 l2 :
+  (forall x, In x l1 -> x = 0 \/ exists y, In y l2 /\ x <= y) -> list_max l1 <= list_max l2.
+Proof.
+  intros H. apply list_max_le. apply Forall_forall. intros x Hx.
+  destruct (H x Hx) as [-> | [y [Hy Hle]]]; [lia|]. pose proof (list_max_In y l2 Hy). lia.
+Qed.
+
+Definition fst3 (t : idx3) := fst (fst t).
+Definition snd3 (t : idx3) := snd (fst t).
+Definition thd3 (t : idx3) := snd t.
+
+Lemma max3_fold l : forall a b c,
+  fold_left (fun d t => let '(a, b, c) := d in let '(x, y, z) := t in (Nat.max a x, Nat.max b y, Nat.max c z))
+            l (a, b, c)
+  = (Nat.max a (list_max (map fst3 l)), Nat.max b (list_max (map snd3 l)), Nat.max c (list_max (map thd3 l))).
+Proof.
+  induction l as [|[[x y] z] l IH]; intros a b c; simpl.
+  - now rewrite !Nat.max_0_r.
+  - rewrite IH. unfold fst3, snd3, thd3. simpl. f_equal; [f_equal|]; lia.
+Qed.
+
+Lemma max3_spec l : max3 l = (list_max (map fst3 l), list_max (map snd3 l), list_max (map thd3 l)).
+Proof. unfold max3. now rewrite max3_fold. Qed.
+
+Lemma in_flat_map_flat_map {A B} (f : A -> list B) (rows : list (list A)) y :
+  In y (flat_map (flat_map f) rows) <-> exists r x, In r rows /\ In x r /\ In y (f x).
+Proof.
+  rewrite in_flat_map. split.
+  - intros [r [Hr Hy]]. apply in_flat_map in Hy. destruct Hy as [x [Hx Hy]]. eauto.
+  - intros [r [x [Hr [Hx Hy]]]]. exists r. split; auto. apply in_flat_map. eauto.
+Qed.
+
+(* ------------------------------------------------------------------ what the traversal finds *)
+Lemma chain_free_no_chains e : chain_free e = true -> chains_of e = [].
+Proof.
+  induction e using expr_ind'; simpl; intros Hc; try reflexivity.
+  - destruct ops; [reflexivity|discriminate].
+  - induction H; simpl in *; [reflexivity|]. apply andb_true_iff in Hc. destruct Hc as [H1 H2].
+    rewrite H by assumption. simpl. auto.
+  - induction H; simpl in *; [reflexivity|]. apply andb_true_iff in Hc. destruct Hc as [H1 H2].
+    rewrite H by assumption. simpl. auto.
+  - apply andb_true_iff in Hc. destruct Hc as [H1 H2]. now rewrite IHe1, IHe2.
+  - induction H; simpl in *; [reflexivity|]. apply andb_true_iff in Hc. destruct Hc as [H1 H2].
+    rewrite H by assumption. simpl. auto.
+  - induction H; simpl in *; [reflexivity|]. apply andb_true_iff in Hc. destruct Hc as [H1 H2].
+    rewrite H by assumption. simpl. auto.
+  - induction H; simpl in *; [reflexivity|]. apply andb_true_iff in Hc. destruct Hc as [H1 H2].
+    rewrite H by assumption. simpl. auto.
+  - induction H as [|r rows Hr Hrows IH]; simpl in *; [reflexivity|].
+    apply andb_true_iff in Hc. destruct Hc as [H1 H2]. rewrite IH by assumption. rewrite app_nil_r.
+    clear IH Hrows H2. induction Hr; simpl in *; [reflexivity|]. apply andb_true_iff in H1. destruct H1 as [H1 H3].
+    rewrite H by assumption. simpl. auto.
+Qed.
+
+(* soundness of the traversal: whatever it returns is a chain of the kernel *)
+Lemma find_pd_sub e : forall c, In c (find_pd e) -> In c (chains_of e).
+Proof.
+  induction e using expr_ind'; simpl; intros c Hc; try contradiction.
+  - destruct ops; simpl in *; auto.
+  - apply in_flat_map in Hc. destruct Hc as [x [Hx Hc]]. apply in_flat_map. exists x. split; auto.
+    rewrite Forall_forall in H. auto.
+  - apply in_flat_map in Hc. destruct Hc as [x [Hx Hc]]. apply in_flat_map. exists x. split; auto.
+    rewrite Forall_forall in H. auto.
+  - apply in_or_app. left. auto.
+  - apply in_flat_map in Hc. destruct Hc as [x [Hx Hc]]. apply in_flat_map. exists x. split; auto.
+    rewrite Forall_forall in H. auto.
+  - apply in_flat_map in Hc. destruct Hc as [x [Hx Hc]]. apply in_flat_map. exists x. split; auto.
+    rewrite Forall_forall in H. auto.
+Qed.
+
+(* completeness on the entered fragment *)
+Lemma find_pd_complete e : entered e = true -> forall c, In c (chains_of e) -> In c (find_pd e).
+Proof.
+  induction e using expr_ind'; simpl; intros He c Hc; try contradiction.
+  - destruct ops; simpl in *; auto.
+  - apply in_flat_map in Hc. destruct Hc as [x [Hx Hc]]. apply in_flat_map. exists x. split; auto.
+    rewrite Forall_forall in H. rewrite forallb_forall in He. auto.
+  - apply in_flat_map in Hc. destruct Hc as [x [Hx Hc]]. apply in_flat_map. exists x. split; auto.
+    rewrite Forall_forall in H. rewrite forallb_forall in He. auto.
+  - apply andb_true_iff in He. destruct He as [H1 H2]. rewrite (chain_free_no_chains _ H2), app_nil_r in Hc. auto.
+  - exfalso. apply in_flat_map in Hc. destruct Hc as [x [Hx Hc]]. rewrite forallb_forall in He.
+    rewrite (chain_free_no_chains x (He x Hx)) in Hc. contradiction.
+  - apply in_flat_map in Hc. destruct Hc as [x [Hx Hc]]. apply in_flat_map. exists x. split; auto.
+    rewrite Forall_forall in H. rewrite forallb_forall in He. auto.
+  - apply in_flat_map in Hc. destruct Hc as [x [Hx Hc]]. apply in_flat_map. exists x. split; auto.
+    rewrite Forall_forall in H. rewrite forallb_forall in He. auto.
+  - exfalso. apply in_flat_map_flat_map in Hc. destruct Hc as [r [x [Hr [Hx Hc]]]].
+    rewrite forallb_forall in He. specialize (He r Hr). rewrite forallb_forall in He.
+    rewrite (chain_free_no_chains x (He x Hx)) in Hc. contradiction.
+Qed.
+
+Lemma chains_nonempty e c : In c (chains_of e) -> fst c <> [].
+Proof.
+  induction e using expr_ind'; simpl; intros Hc; try contradiction.
+  - destruct ops; simpl in Hc; [contradiction|]. destruct Hc as [<-|[]]. discriminate.
+  - apply in_flat_map in Hc. destruct Hc as [x [Hx Hc]]. rewrite Forall_forall in H. eauto.
+  - apply in_flat_map in Hc. destruct Hc as [x [Hx Hc]]. rewrite Forall_forall in H. eauto.
+  - apply in_app_or in Hc. tauto.
+  - apply in_flat_map in Hc. destruct Hc as [x [Hx Hc]]. rewrite Forall_forall in H. eauto.
+  - apply in_flat_map in Hc. destruct Hc as [x [Hx Hc]]. rewrite Forall_forall in H. eauto.
+  - apply in_flat_map in Hc. destruct Hc as [x [Hx Hc]]. rewrite Forall_forall in H. eauto.
+  - apply in_flat_map_flat_map in Hc. destruct Hc as [r [x [Hr [Hx Hc]]]].
+    rewrite Forall_forall in H. specialize (H r Hr). rewrite Forall_forall in H. eauto.
+Qed.
+
+(* the atom of every chain is among expr.atoms(...) *)
+Lemma chains_atoms e c : In c (chains_of e) -> In (QAtom (snd c)) (atoms_of e).
+Proof.
+  induction e using expr_ind'; simpl; intros Hc; try contradiction.
+  - destruct ops; simpl in Hc; [contradiction|]. destruct Hc as [<-|[]]. simpl. destruct a; simpl; auto.
+  - apply in_flat_map in Hc. destruct Hc as [x [Hx Hc]]. apply in_flat_map. exists x. rewrite Forall_forall in H. auto.
+  - apply in_flat_map in Hc. destruct Hc as [x [Hx Hc]]. apply in_flat_map. exists x. rewrite Forall_forall in H. auto.
+  - apply in_app_or in Hc. apply in_or_app. tauto.
+  - apply in_flat_map in Hc. destruct Hc as [x [Hx Hc]]. apply in_flat_map. exists x. rewrite Forall_forall in H. auto.
+  - apply in_flat_map in Hc. destruct Hc as [x [Hx Hc]]. apply in_flat_map. exists x. rewrite Forall_forall in H. auto.
+  - apply in_flat_map in Hc. destruct Hc as [x [Hx Hc]]. apply in_flat_map. exists x. rewrite Forall_forall in H. auto.
+  - apply in_flat_map_flat_map in Hc. destruct Hc as [r [x [Hr [Hx Hc]]]]. apply in_flat_map_flat_map.
+    exists r, x. rewrite Forall_forall in H. specialize (H r Hr). rewrite Forall_forall in H. auto.
+Qed.
+
+(* sort_partial_derivatives only reorders *)
+Lemma sort_pd_In l c : In c (sort_pd l) <-> In c l.
+Proof.
+  unfold sort_pd. rewrite in_flat_map. split.
+  - intros [k [_ Hk]]. apply filter_In in Hk. tauto.
+  - intros H. exists (lead_phys (fst c)). split.
+    + rewrite <- in_rev. apply in_seq.
+      assert (K : lead_phys (fst c) <= list_max (map (fun c0 : chain => lead_phys (fst c0)) l)).
+      { apply list_max_In. apply in_map_iff. eauto. }
+      unfold chain in *. lia.
+    + apply filter_In. split; auto. apply Nat.eqb_refl.
+Qed.
+
+Lemma fatom_eqb_eq a b : fatom_eqb a b = true <-> a = b.
+Proof.
+  destruct a, b; simpl; try (split; [discriminate|congruence]).
+  - rewrite String.eqb_eq. split; congruence.
+  - rewrite andb_true_iff, String.eqb_eq, Nat.eqb_eq. split; [intros []|intros E; inversion E]; subst; auto.
+Qed.
+
+Lemma strip_phys_nil ops : strip_phys ops = [] <-> forallb is_phys ops = true.
+Proof.
+  induction ops as [|o r IH]; simpl; [tauto|]. destruct (is_phys o); simpl; [exact IH|].
+  split; discriminate.
+Qed.
+Lemma strip_log_nil ops : strip_log ops = [] <-> forallb is_log ops = true.
+Proof.
+  induction ops as [|o r IH]; simpl; [tauto|]. destruct (is_log o); simpl; [exact IH|].
+  split; discriminate.
+Qed.
+
+Lemma match_q_spec rest a q : match_q rest a q = true <-> rest = [] /\ q = QAtom a.
+Proof.
+  destruct q as [f|n]; simpl.
+  - destruct rest; [|split; [discriminate|intros []; discriminate]].
+    rewrite fatom_eqb_eq. split; [intros ->; auto|intros [_ E]; now inversion E].
+  - split; [discriminate|intros [_ E]; discriminate].
+Qed.
+
+Lemma index_atom_phys_In e q t :
+  In t (index_atom_phys e q) <->
+  exists c, In c (find_pd e) /\ forallb is_phys (fst c) = true /\ q = QAtom (snd c) /\ t = phys_index (fst c).
+Proof.
+  unfold index_atom_phys. rewrite in_flat_map. split.
+  - intros [c [Hc Ht]]. apply (proj1 (sort_pd_In _ _)) in Hc.
+    destruct (match_q (strip_phys (fst c)) (snd c) q) eqn:E; [|contradiction].
+    apply match_q_spec in E. destruct E as [E1 E2]. apply strip_phys_nil in E1.
+    destruct Ht as [<-|[]]. exists c. repeat split; auto.
+  - intros [c [Hc [Hp [Hq ->]]]]. exists c. split; [now apply sort_pd_In|].
+    assert (E : match_q (strip_phys (fst c)) (snd c) q = true).
+    { apply match_q_spec. split; auto. now apply strip_phys_nil. }
+    rewrite E. simpl. auto.
+Qed.
+
+Lemma index_atom_log_In e q t :
+  In t (index_atom_log e q) <->
+  exists c, In c (find_pd e) /\ forallb is_log (fst c) = true /\ q = QAtom (snd c) /\ t = log_index (fst c).
+Proof.
+  unfold index_atom_log. rewrite in_flat_map. split.
+  - intros [c [Hc Ht]]. apply (proj1 (sort_pd_In _ _)) in Hc.
+    destruct (match_q (strip_log (fst c)) (snd c) q) eqn:E; [|contradiction].
+    apply match_q_spec in E. destruct E as [E1 E2]. apply strip_log_nil in E1.
+    destruct Ht as [<-|[]]. exists c. repeat split; auto.
+  - intros [c [Hc [Hp [Hq ->]]]]. exists c. split; [now apply sort_pd_In|].
+    assert (E : match_q (strip_log (fst c)) (snd c) q = true).
+    { apply match_q_spec. split; auto. now apply strip_log_nil. }
+    rewrite E. simpl. auto.
+Qed.
+
+(* the list of index dictionaries the maximum is taken over *)
+Definition reported_phys (e : expr) (q : option query) : list idx3 :=
+  match q with None => flat_map (index_atom_phys e) (atoms_of e) | Some f => index_atom_phys e f end.
+Definition reported_log (e : expr) (q : option query) : list idx3 :=
+  match q with None => flat_map (index_atom_log e) (atoms_of e) | Some f => index_atom_log e f end.
+
+Lemma get_max_phys_some e q t : get_max_phys e q = Some t -> t = max3 (reported_phys e q).
+Proof. destruct q; simpl; [congruence|]. destruct (is_pyseq e); congruence. Qed.
+Lemma get_max_log_some e q t : get_max_log e q = Some t -> t = max3 (reported_log e q).
+Proof. destruct q; simpl; [congruence|]. destruct (is_pyseq e); congruence. Qed.
+
+Lemma qmatch_atom q c : (q = None \/ q = Some (QAtom (snd c))) -> qmatch q c = true.
+Proof. intros [->| ->]; simpl; [reflexivity|]. now apply fatom_eqb_eq. Qed.
+
+(* every reported dictionary is the index of a chain of the kernel that the query is about *)
+Lemma reported_phys_sound e q t :
+  In t (reported_phys e q) ->
+  exists c, In c (chains_of e) /\ qmatch q c = true /\ t = phys_index (fst c).
+Proof.
+  destruct q as [f|]; simpl.
+  - intros H. apply index_atom_phys_In in H. destruct H as [c [Hc [_ [Hq ->]]]].
+    exists c. repeat split; [now apply find_pd_sub|]. subst f. now apply fatom_eqb_eq.
+  - intros H. apply in_flat_map in H. destruct H as [f [_ H]]. apply index_atom_phys_In in H.
+    destruct H as [c [Hc [_ [_ ->]]]]. exists c. repeat split. now apply find_pd_sub.
+Qed.
+Lemma reported_log_sound e q t :
+  In t (reported_log e q) ->
+  exists c, In c (chains_of e) /\ qmatch q c = true /\ t = log_index (fst c).
+Proof.
+  destruct q as [f|]; simpl.
+  - intros H. apply index_atom_log_In in H. destruct H as [c [Hc [_ [Hq ->]]]].
+    exists c. repeat split; [now apply find_pd_sub|]. subst f. now apply fatom_eqb_eq.
+  - intros H. apply in_flat_map in H. destruct H as [f [_ H]]. apply index_atom_log_In in H.
+    destruct H as [c [Hc [_ [_ ->]]]]. exists c. repeat split. now apply find_pd_sub.
+Qed.
+
+Definition novec (q : option query) : Prop := forall n, q <> Some (QVec n).
+
+Lemma qmatch_novec q c : novec q -> qmatch q c = true -> q = None \/ q = Some (QAtom (snd c)).
+Proof.
+  destruct q as [[f|n]|]; simpl; intros Hn H; auto.
+  - right. apply fatom_eqb_eq in H. now subst.
+  - exfalso. now apply (Hn n).
+Qed.
+
+(* on the entered fragment with pure chains, every chain the query is about is reported *)
+Lemma reported_phys_complete e q c :
+  entered e = true -> novec q -> In c (chains_of e) -> qmatch q c = true -> forallb is_phys (fst c) = true ->
+  In (phys_index (fst c)) (reported_phys e q).
+Proof.
+  intros He Hn Hc Hq Hp. apply qmatch_novec in Hq; auto. destruct Hq as [-> | ->]; simpl.
+  - apply in_flat_map. exists (QAtom (snd c)). split; [now apply chains_atoms|].
+    apply index_atom_phys_In. exists c. repeat split; auto. now apply find_pd_complete.
+  - apply index_atom_phys_In. exists c. repeat split; auto. now apply find_pd_complete.
+Qed.
+Lemma reported_log_complete e q c :
+  entered e = true -> novec q -> In c (chains_of e) -> qmatch q c = true -> forallb is_log (fst c) = true ->
+  In (log_index (fst c)) (reported_log e q).
+Proof.
+  intros He Hn Hc Hq Hp. apply qmatch_novec in Hq; auto. destruct Hq as [-> | ->]; simpl.
+  - apply in_flat_map. exists (QAtom (snd c)). split; [now apply chains_atoms|].
+    apply index_atom_log_In. exists c. repeat split; auto. now apply find_pd_complete.
+  - apply index_atom_log_In. exists c. repeat split; auto. now apply find_pd_complete.
+Qed.
+
+Definition proj_of (d : dop) : idx3 -> nat :=
+  match d with Dx | D1 => fst3 | Dy | D2 => snd3 | Dz | D3 => thd3 end.
+
+Lemma proj_phys d ops : is_phys d = true -> proj_of d (phys_index ops) = count d ops.
+Proof. destruct d; simpl; try discriminate; reflexivity. Qed.
+Lemma proj_log d ops : is_log d = true -> proj_of d (log_index ops) = count d ops.
+Proof. destruct d; simpl; try discriminate; reflexivity. Qed.
+
+Lemma proj_max3 d l : proj_of d (max3 l) = list_max (map (proj_of d) l).
+Proof. rewrite max3_spec. destruct d; reflexivity. Qed.
+
+Lemma count_pos_In d ops : count d ops <> 0 -> In d ops.
+Proof.
+  induction ops as [|o r IH]; simpl; [congruence|]. destruct (dop_eqb d o) eqn:E.
+  - intros _. left. destruct d, o; simpl in E; congruence.
+  - simpl. auto.
+Qed.
+
+Lemma pure_with_phys d ops : pure ops = true -> is_phys d = true -> In d ops -> forallb is_phys ops = true.
+Proof.
+  unfold pure. intros H Hd Hin. apply orb_true_iff in H. destruct H as [H|H]; [exact H|].
+  rewrite forallb_forall in H. specialize (H d Hin). unfold is_log in H. rewrite Hd in H. discriminate.
+Qed.
+Lemma pure_with_log d ops : pure ops = true -> is_log d = true -> In d ops -> forallb is_log ops = true.
+Proof.
+  unfold pure. intros H Hd Hin. apply orb_true_iff in H. destruct H as [H|H]; [|exact H].
+  rewrite forallb_forall in H. specialize (H d Hin). unfold is_log in Hd. rewrite H in Hd. discriminate.
+Qed.
+
+(* ------------------------------------------------------------------ the order theorems *)
+(* never more than the truth: for every kernel and every query *)
+Theorem max_phys_le_true e q t d :
+  get_max_phys e q = Some t -> is_phys d = true -> proj_of d t <= true_max d e q.
+Proof.
+  intros H Hd. apply get_max_phys_some in H. subst t. rewrite proj_max3. unfold true_max.
+  apply list_max_le_ex. intros x Hx. apply in_map_iff in Hx. destruct Hx as [t [<- Ht]].
+  apply reported_phys_sound in Ht. destruct Ht as [c [Hc [Hq ->]]]. right.
+  exists (count d (fst c)). split; [|rewrite proj_phys by assumption; lia].
+  apply in_map_iff. exists c. split; auto. apply filter_In. auto.
+Qed.
+Theorem max_log_le_true e q t d :
+  get_max_log e q = Some t -> is_log d = true -> proj_of d t <= true_max d e q.
+Proof.
+  intros H Hd. apply get_max_log_some in H. subst t. rewrite proj_max3. unfold true_max.
+  apply list_max_le_ex. intros x Hx. apply in_map_iff in Hx. destruct Hx as [t [<- Ht]].
+  apply reported_log_sound in Ht. destruct Ht as [c [Hc [Hq ->]]]. right.
+  exists (count d (fst c)). split; [|rewrite proj_log by assumption; lia].
+  apply in_map_iff. exists c. split; auto. apply filter_In. auto.
+Qed.
+
+(* exact on the fragment the traversal enters, for pure chains and a query that is not a VectorFunction *)
+Theorem max_phys_exact e q t d :
+  entered e = true -> pure_chains e = true -> novec q ->
+  get_max_phys e q = Some t -> is_phys d = true -> proj_of d t = true_max d e q.
+Proof.
+  intros He Hp Hn H Hd. apply Nat.le_antisymm; [eapply max_phys_le_true; eauto|].
+  apply get_max_phys_some in H. subst t. rewrite proj_max3. unfold true_max.
+  apply list_max_le_ex. intros x Hx. apply in_map_iff in Hx. destruct Hx as [c [<- Hc]].
+  apply filter_In in Hc. destruct Hc as [Hc Hq].
+  destruct (Nat.eq_dec (count d (fst c)) 0) as [E|E]; [left; exact E|right].
+  unfold pure_chains in Hp. rewrite forallb_forall in Hp. specialize (Hp c Hc).
+  assert (Hall : forallb is_phys (fst c) = true) by (eapply pure_with_phys; eauto using count_pos_In).
+  exists (proj_of d (phys_index (fst c))). split; [|rewrite proj_phys by assumption; lia].
+  apply in_map. now apply reported_phys_complete.
+Qed.
+Theorem max_log_exact e q t d :
+  entered e = true -> pure_chains e = true -> novec q ->
+  get_max_log e q = Some t -> is_log d = true -> proj_of d t = true_max d e q.
+Proof.
+  intros He Hp Hn H Hd. apply Nat.le_antisymm; [eapply max_log_le_true; eauto|].
+  apply get_max_log_some in H. subst t. rewrite proj_max3. unfold true_max.
+  apply list_max_le_ex. intros x Hx. apply in_map_iff in Hx. destruct Hx as [c [<- Hc]].
+  apply filter_In in Hc. destruct Hc as [Hc Hq].
+  destruct (Nat.eq_dec (count d (fst c)) 0) as [E|E]; [left; exact E|right].
+  unfold pure_chains in Hp. rewrite forallb_forall in Hp. specialize (Hp c Hc).
+  assert (Hall : forallb is_log (fst c) = true) by (eapply pure_with_log; eauto using count_pos_In).
+  exists (proj_of d (log_index (fst c))). split; [|rewrite proj_log by assumption; lia].
+  apply in_map. now apply reported_log_complete.
+Qed.
+
+(* a report is refused only for a python list/tuple without F *)
+Theorem max_refused_iff e q :
+  (get_max_phys e q = None <-> q = None /\ is_pyseq e = true) /\
+  (get_max_log e q = None <-> q = None /\ is_pyseq e = true).
+Proof.
+  split; (destruct q; simpl; [split; [discriminate|intros []; discriminate]|]);
+    (destruct (is_pyseq e); split; try discriminate; auto; intros []; discriminate).
+Qed.
+
+(* what the traversal misses (each witness is confirmed on the real code by the check) *)
+Definition u := FScal "u".
+Theorem max_matrix_refuted :
+  exists e, get_max_phys e None = Some (0, 0, 0) /\ true_max Dx e None = 1 /\ pure_chains e = true.
+Proof. exists (Mat false [[Chain [Dx] u]]). repeat split. Qed.
+Theorem max_function_refuted :
+  exists e, get_max_phys e None = Some (0, 0, 0) /\ true_max Dx e None = 1 /\ pure_chains e = true.
+Proof. exists (Fn "sin" [Chain [Dx] u]). repeat split. Qed.
+Theorem max_exponent_refuted :
+  exists e, get_max_phys e None = Some (0, 0, 0) /\ true_max Dx e None = 1 /\ pure_chains e = true.
+Proof. exists (Pow (Num "2") (Chain [Dx] u)). repeat split. Qed.
+Theorem max_mixed_refuted :
+  exists e, entered e = true /\
+    get_max_phys e None = Some (0, 0, 0) /\ true_max Dx e None = 1 /\
+    get_max_log e None = Some (0, 0, 0) /\ true_max D1 e None = 1.
+Proof. exists (Chain [Dx; D1] u). repeat split. Qed.
+Theorem max_vector_query_refuted :
+  exists e q, entered e = true /\ pure_chains e = true /\
+    get_max_phys e (Some q) = Some (0, 0, 0) /\ true_max Dx e (Some q) = 1.
+Proof. exists (Chain [Dx] (FComp "w" 0)), (QVec "w"). repeat split. Qed.
+
+(* ================================================================== the functions with the proposed repairs *)
+(* all flags false: the functions of the current code *)
+Lemma symbolic_g_false e : symbolic_g false e = symbolic e.
+Proof.
+  induction e using expr_ind'; simpl; try reflexivity;
+    try (f_equal; apply map_ext_Forall; assumption).
+  - now rewrite IHe1.
+  - f_equal. apply map_ext_Forall. eapply Forall_impl; [|exact H]. intros r Hr. now apply map_ext_Forall.
+Qed.
+
+Lemma flat_map_ext_Forall {A B} (f g : A -> list B) l :
+  Forall (fun x => f x = g x) l -> flat_map f l = flat_map g l.
+Proof. induction 1; simpl; congruence. Qed.
+
+Lemma find_pd_g_false e : find_pd_g false e = find_pd e.
+Proof.
+  induction e using expr_ind'; simpl; try reflexivity; try (apply flat_map_ext_Forall; assumption).
+  assumption.
+Qed.
+
+Lemma match_q_g_false rest a q : match_q_g false rest a q = match_q rest a q.
+Proof. destruct q; reflexivity. Qed.
+
+Lemma flat_map_ext_all {A B} (f g : A -> list B) l : (forall x, f x = g x) -> flat_map f l = flat_map g l.
+Proof. intros H. induction l; simpl; congruence. Qed.
+
+Lemma index_atom_g_false e q :
+  index_atom_phys_g false false e q = index_atom_phys e q /\ index_atom_log_g false false e q = index_atom_log e q.
+Proof.
+  unfold index_atom_phys_g, index_atom_log_g, index_atom_phys, index_atom_log. rewrite find_pd_g_false.
+  split; apply flat_map_ext_all; intros c; now rewrite match_q_g_false.
+Qed.
+
+Theorem current_code_is_all_flags_false e q :
+  symbolic_g false e = symbolic e /\ find_pd_g false e = find_pd e /\
+  get_max_phys_g false false e q = get_max_phys e q /\ get_max_log_g false false e q = get_max_log e q.
+Proof.
+  split; [apply symbolic_g_false|]. split; [apply find_pd_g_false|].
+  unfold get_max_phys_g, get_max_log_g, get_max_phys, get_max_log.
+  destruct q as [f|].
+  - destruct (index_atom_g_false e f) as [-> ->]. auto.
+  - assert (E1 : flat_map (index_atom_phys_g false false e) (atoms_of e) = flat_map (index_atom_phys e) (atoms_of e))
+      by (apply flat_map_ext_all; intros f; apply index_atom_g_false).
+    assert (E2 : flat_map (index_atom_log_g false false e) (atoms_of e) = flat_map (index_atom_log e) (atoms_of e))
+      by (apply flat_map_ext_all; intros f; apply index_atom_g_false).
+    rewrite E1, E2. auto.
+Qed.
+
+(* with the exponent translated, SymbolicExpr is the homomorphic extension for EVERY kernel *)
+Theorem symbolic_g_true_is_subst e : symbolic_g true e = subst chain_name e.
+Proof.
+  induction e using expr_ind'; simpl; try reflexivity;
+    try (f_equal; apply map_ext_Forall; assumption).
+  - now rewrite IHe1, IHe2.
+  - f_equal. apply map_ext_Forall. eapply Forall_impl; [|exact H]. intros r Hr. now apply map_ext_Forall.
+Qed.
+Theorem symbolic_g_true_plain e : plainb (symbolic_g true e) = true.
+Proof. rewrite symbolic_g_true_is_subst. apply subst_plainb. Qed.
+
+(* with every sub-expression entered, the traversal returns exactly the chains of the kernel *)
+Lemma find_pd_g_true e : find_pd_g true e = chains_of e.
+Proof.
+  induction e using expr_ind'; simpl; try reflexivity; try (apply flat_map_ext_Forall; assumption).
+  - now rewrite IHe1, IHe2.
+  - apply flat_map_ext_Forall. eapply Forall_impl; [|exact H]. intros r Hr. now apply flat_map_ext_Forall.
+Qed.
+
+Lemma find_pd_g_sub ea e : forall c, In c (find_pd_g ea e) -> In c (chains_of e).
+Proof.
+  destruct ea; [rewrite find_pd_g_true; auto|]. rewrite find_pd_g_false. apply find_pd_sub.
+Qed.
+
+Lemma match_q_g_spec vq rest a q :
+  match_q_g vq rest a q = true -> rest = [] /\ qmatch (Some q) (rest, a) = true.
+Proof.
+  destruct q as [f|n]; simpl.
+  - destruct rest; [auto|discriminate].
+  - intros H. apply andb_true_iff in H. destruct H as [_ H]. destruct rest; [|discriminate].
+    destruct a; [discriminate|auto].
+Qed.
+Lemma match_q_g_true rest a q :
+  rest = [] -> qmatch (Some q) (rest, a) = true -> match_q_g true rest a q = true.
+Proof. intros ->. destruct q as [f|n]; simpl; auto. Qed.
+
+Lemma qmatch_fst q ops1 ops2 a : qmatch q (ops1, a) = qmatch q (ops2, a).
+Proof. destruct q as [[f|n]|]; reflexivity. Qed.
+
+Definition reported_phys_g ea vq (e : expr) (q : option query) : list idx3 :=
+  match q with None => flat_map (index_atom_phys_g ea vq e) (atoms_of e) | Some f => index_atom_phys_g ea vq e f end.
+Definition reported_log_g ea vq (e : expr) (q : option query) : list idx3 :=
+  match q with None => flat_map (index_atom_log_g ea vq e) (atoms_of e) | Some f => index_atom_log_g ea vq e f end.
+
+Lemma get_max_phys_g_some ea vq e q t : get_max_phys_g ea vq e q = Some t -> t = max3 (reported_phys_g ea vq e q).
+Proof. destruct q; simpl; [congruence|]. destruct (is_pyseq e); congruence. Qed.
+Lemma get_max_log_g_some ea vq e q t : get_max_log_g ea vq e q = Some t -> t = max3 (reported_log_g ea vq e q).
+Proof. destruct q; simpl; [congruence|]. destruct (is_pyseq e); congruence. Qed.
+
+Lemma index_atom_phys_g_sound ea vq e f t :
+  In t (index_atom_phys_g ea vq e f) ->
+  exists c, In c (chains_of e) /\ qmatch (Some f) c = true /\ t = phys_index (fst c).
+Proof.
+  unfold index_atom_phys_g. rewrite in_flat_map. intros [c [Hc Ht]]. apply (proj1 (sort_pd_In _ _)) in Hc.
+  destruct (match_q_g vq (strip_phys (fst c)) (snd c) f) eqn:E; [|contradiction].
+  apply match_q_g_spec in E. destruct E as [_ E]. destruct Ht as [<-|[]].
+  exists c. split; [eapply find_pd_g_sub; eauto|]. split; [|reflexivity].
+  destruct c as [ops a]. exact E.
+Qed.
+Lemma index_atom_log_g_sound ea vq e f t :
+  In t (index_atom_log_g ea vq e f) ->
+  exists c, In c (chains_of e) /\ qmatch (Some f) c = true /\ t = log_index (fst c).
+Proof.
+  unfold index_atom_log_g. rewrite in_flat_map. intros [c [Hc Ht]]. apply (proj1 (sort_pd_In _ _)) in Hc.
+  destruct (match_q_g vq (strip_log (fst c)) (snd c) f) eqn:E; [|contradiction].
+  apply match_q_g_spec in E. destruct E as [_ E]. destruct Ht as [<-|[]].
+  exists c. split; [eapply find_pd_g_sub; eauto|]. split; [|reflexivity].
+  destruct c as [ops a]. exact E.
+Qed.
+
+Lemma reported_phys_g_sound ea vq e q t :
+  In t (reported_phys_g ea vq e q) -> exists c, In c (chains_of e) /\ qmatch q c = true /\ t = phys_index (fst c).
+Proof.
+  destruct q as [f|]; simpl; [apply index_atom_phys_g_sound|].
+  intros H. apply in_flat_map in H. destruct H as [f [_ H]]. apply index_atom_phys_g_sound in H.
+  destruct H as [c [Hc [_ ->]]]. exists c. auto.
+Qed.
+Lemma reported_log_g_sound ea vq e q t :
+  In t (reported_log_g ea vq e q) -> exists c, In c (chains_of e) /\ qmatch q c = true /\ t = log_index (fst c).
+Proof.
+  destruct q as [f|]; simpl; [apply index_atom_log_g_sound|].
+  intros H. apply in_flat_map in H. destruct H as [f [_ H]]. apply index_atom_log_g_sound in H.
+  destruct H as [c [Hc [_ ->]]]. exists c. auto.
+Qed.
+
+Lemma index_atom_phys_g_complete e f c :
+  In c (chains_of e) -> qmatch (Some f) c = true -> forallb is_phys (fst c) = true ->
+  In (phys_index (fst c)) (index_atom_phys_g true true e f).
+Proof.
+  intros Hc Hq Hp. unfold index_atom_phys_g. apply in_flat_map. exists c. split.
+  - apply sort_pd_In. now rewrite find_pd_g_true.
+  - assert (E : match_q_g true (strip_phys (fst c)) (snd c) f = true).
+    { apply match_q_g_true; [now apply strip_phys_nil|]. destruct c as [ops a]. exact Hq. }
+    rewrite E. simpl. auto.
+Qed.
+Lemma index_atom_log_g_complete e f c :
+  In c (chains_of e) -> qmatch (Some f) c = true -> forallb is_log (fst c) = true ->
+  In (log_index (fst c)) (index_atom_log_g true true e f).
+Proof.
+  intros Hc Hq Hp. unfold index_atom_log_g. apply in_flat_map. exists c. split.
+  - apply sort_pd_In. now rewrite find_pd_g_true.
+  - assert (E : match_q_g true (strip_log (fst c)) (snd c) f = true).
+    { apply match_q_g_true; [now apply strip_log_nil|]. destruct c as [ops a]. exact Hq. }
+    rewrite E. simpl. auto.
+Qed.
+
+Lemma qmatch_self c : qmatch (Some (QAtom (snd c))) c = true.
+Proof. simpl. now apply fatom_eqb_eq. Qed.
+
+(* never more than the truth, whatever repairs are applied *)
+Theorem max_phys_g_le_true ea vq e q t d :
+  get_max_phys_g ea vq e q = Some t -> is_phys d = true -> proj_of d t <= true_max d e q.
+Proof.
+  intros H Hd. apply get_max_phys_g_some in H. subst t. rewrite proj_max3. unfold true_max.
+  apply list_max_le_ex. intros x Hx. apply in_map_iff in Hx. destruct Hx as [t [<- Ht]].
+  apply reported_phys_g_sound in Ht. destruct Ht as [c [Hc [Hq ->]]]. right.
+  exists (count d (fst c)). split; [|rewrite proj_phys by assumption; lia].
+  apply in_map_iff. exists c. split; auto. apply filter_In. auto.
+Qed.
+Theorem max_log_g_le_true ea vq e q t d :
+  get_max_log_g ea vq e q = Some t -> is_log d = true -> proj_of d t <= true_max d e q.
+Proof.
+  intros H Hd. apply get_max_log_g_some in H. subst t. rewrite proj_max3. unfold true_max.
+  apply list_max_le_ex. intros x Hx. apply in_map_iff in Hx. destruct Hx as [t [<- Ht]].
+  apply reported_log_g_sound in Ht. destruct Ht as [c [Hc [Hq ->]]]. right.
+  exists (count d (fst c)). split; [|rewrite proj_log by assumption; lia].
+  apply in_map_iff. exists c. split; auto. apply filter_In. auto.
+Qed.
+
+(* with the repairs: exact for EVERY kernel (matrices, functions, exponents) and every query, pure chains *)
+Theorem max_phys_g_exact e q t d :
+  pure_chains e = true -> get_max_phys_g true true e q = Some t -> is_phys d = true ->
+  proj_of d t = true_max d e q.
+Proof.
+  intros Hp H Hd. apply Nat.le_antisymm; [eapply max_phys_g_le_true; eauto|].
+  apply get_max_phys_g_some in H. subst t. rewrite proj_max3. unfold true_max.
+  apply list_max_le_ex. intros x Hx. apply in_map_iff in Hx. destruct Hx as [c [<- Hc]].
+  apply filter_In in Hc. destruct Hc as [Hc Hq].
+  destruct (Nat.eq_dec (count d (fst c)) 0) as [E|E]; [left; exact E|right].
+  unfold pure_chains in Hp. rewrite forallb_forall in Hp. specialize (Hp c Hc).
+  assert (Hall : forallb is_phys (fst c) = true) by (eapply pure_with_phys; eauto using count_pos_In).
+  exists (proj_of d (phys_index (fst c))). split; [|rewrite proj_phys by assumption; lia].
+  apply in_map. destruct q as [f|]; simpl.
+  - now apply index_atom_phys_g_complete.
+  - apply in_flat_map. exists (QAtom (snd c)). split; [now apply chains_atoms|].
+    apply index_atom_phys_g_complete; auto using qmatch_self.
+Qed.
+Theorem max_log_g_exact e q t d :
+  pure_chains e = true -> get_max_log_g true true e q = Some t -> is_log d = true ->
+  proj_of d t = true_max d e q.
+Proof.
+  intros Hp H Hd. apply Nat.le_antisymm; [eapply max_log_g_le_true; eauto|].
+  apply get_max_log_g_some in H. subst t. rewrite proj_max3. unfold true_max.
+  apply list_max_le_ex. intros x Hx. apply in_map_iff in Hx. destruct Hx as [c [<- Hc]].
+  apply filter_In in Hc. destruct Hc as [Hc Hq].
+  destruct (Nat.eq_dec (count d (fst c)) 0) as [E|E]; [left; exact E|right].
+  unfold pure_chains in Hp. rewrite forallb_forall in Hp. specialize (Hp c Hc).
+  assert (Hall : forallb is_log (fst c) = true) by (eapply pure_with_log; eauto using count_pos_In).
+  exists (proj_of d (log_index (fst c))). split; [|rewrite proj_log by assumption; lia].
+  apply in_map. destruct q as [f|]; simpl.
+  - now apply index_atom_log_g_complete.
+  - apply in_flat_map. exists (QAtom (snd c)). split; [now apply chains_atoms|].
+    apply index_atom_log_g_complete; auto using qmatch_self.
+Qed.
